@@ -147,12 +147,21 @@ func (s rdNumber[T]) Get() (T, bool) {
 	return s.reader.load(s.txn.cursor)
 }
 
+// present narrows a part of the selection to the rows that hold a value in this column. The
+// selection itself is left untouched, the result lives in the scratch bitmap.
+func (s rdNumber[T]) present(chunk commit.Chunk, index bitmap.Bitmap, scratch *bitmap.Bitmap) bitmap.Bitmap {
+	present := index.Clone(scratch)
+	present.And(s.reader.chunks[chunk].fill)
+	return present
+}
+
 // Sum computes a sum of the column values selected by this transaction
 func (s rdNumber[T]) Sum() (sum T) {
+	var scratch bitmap.Bitmap
 	s.txn.initialize()
 	s.txn.rangeRead(func(chunk commit.Chunk, index bitmap.Bitmap) {
 		if int(chunk) < len(s.reader.chunks) {
-			sum += bitmap.Sum(s.reader.chunks[chunk].data, index)
+			sum += bitmap.Sum(s.reader.chunks[chunk].data, s.present(chunk, index, &scratch))
 		}
 	})
 	return sum
@@ -161,11 +170,13 @@ func (s rdNumber[T]) Sum() (sum T) {
 // Avg computes an arithmetic mean of the column values selected by this transaction
 func (s rdNumber[T]) Avg() float64 {
 	sum, ct := T(0), 0
+	var scratch bitmap.Bitmap
 	s.txn.initialize()
 	s.txn.rangeRead(func(chunk commit.Chunk, index bitmap.Bitmap) {
 		if int(chunk) < len(s.reader.chunks) {
-			sum += bitmap.Sum(s.reader.chunks[chunk].data, index)
-			ct += index.Count()
+			present := s.present(chunk, index, &scratch)
+			sum += bitmap.Sum(s.reader.chunks[chunk].data, present)
+			ct += present.Count()
 		}
 	})
 	return float64(sum) / float64(ct)
@@ -173,10 +184,11 @@ func (s rdNumber[T]) Avg() float64 {
 
 // Min finds the smallest value from the column values selected by this transaction
 func (s rdNumber[T]) Min() (min T, ok bool) {
+	var scratch bitmap.Bitmap
 	s.txn.initialize()
 	s.txn.rangeRead(func(chunk commit.Chunk, index bitmap.Bitmap) {
 		if int(chunk) < len(s.reader.chunks) {
-			if v, hit := bitmap.Min(s.reader.chunks[chunk].data, index); hit && (v < min || !ok) {
+			if v, hit := bitmap.Min(s.reader.chunks[chunk].data, s.present(chunk, index, &scratch)); hit && (v < min || !ok) {
 				min = v
 				ok = true
 			}
@@ -187,10 +199,11 @@ func (s rdNumber[T]) Min() (min T, ok bool) {
 
 // Max finds the largest value from the column values selected by this transaction
 func (s rdNumber[T]) Max() (max T, ok bool) {
+	var scratch bitmap.Bitmap
 	s.txn.initialize()
 	s.txn.rangeRead(func(chunk commit.Chunk, index bitmap.Bitmap) {
 		if int(chunk) < len(s.reader.chunks) {
-			if v, hit := bitmap.Max(s.reader.chunks[chunk].data, index); hit && (v > max || !ok) {
+			if v, hit := bitmap.Max(s.reader.chunks[chunk].data, s.present(chunk, index, &scratch)); hit && (v > max || !ok) {
 				max = v
 				ok = true
 			}
